@@ -1005,6 +1005,16 @@ func (p *PubSub) processLoop(ctx context.Context) {
 					in.s.Conn().RemotePeer(), in.s.Protocol())
 			}
 		case msg := <-p.sendMsg:
+			// the forwarding peer or the author may have been blacklisted while the
+			// message was in the validation pipeline
+			if p.blacklist.Contains(msg.ReceivedFrom) {
+				p.tracer.RejectMessage(msg, RejectBlacklstedPeer)
+				continue
+			}
+			if p.blacklist.Contains(msg.GetFrom()) {
+				p.tracer.RejectMessage(msg, RejectBlacklistedSource)
+				continue
+			}
 			p.publishMessage(msg)
 
 		case batchAndOpts := <-p.sendMessageBatch:
